@@ -9,6 +9,7 @@ start, start < end, end[i] == start[i+1] (within roll-up / paint-on streams).
 """
 import itertools
 
+from mc import shared
 from mc.acc import Acc, h8
 from mc.ref import cea608 as C
 
@@ -97,7 +98,7 @@ def evaluate(segs, d, sep, gap, chain):
     doc, rows = build(segs, d, sep, gap)
     v = []
     try:
-        cs = SCCReader().read(doc)
+        cs = shared.obj(SCCReader).read(doc)
         caps = list(cs.get_captions("en-US"))
     except Exception as e:  # noqa
         if not chain and type(e).__name__ == "CaptionReadTimingError":
@@ -146,9 +147,26 @@ def texts_for(shapes):
     return [SHAPES[s](LETTERS[i]) for i, s in enumerate(shapes)]
 
 
+def reuse_items():
+    items = []
+    menu = seg_menu()
+    i = 0
+    for a in menu:
+        for b in menu:
+            items.append((relabel([a, b]), 1 + i % 2, ":;"[i % 2], GAPS[i % 3], False))
+            items.append((relabel([a]), 1 + i % 2, ":", GAPS[(i + 1) % 3], a[0] != "pop"))
+            i += 1
+    return items
+
+
+def reuse_eval(item):
+    v, out = evaluate(*item)
+    return [(f"C16/reuse-run/{kind}", det) for kind, det in v], out
+
+
 def shards(tier, seed):
     b = bounds(tier)
-    sh = []
+    sh = [{"k": "reuse"}]
     for depth in (2, 3, 4):
         for n in range(1, b["max_rows"] + 1):
             sh.append({"k": "roll", "depth": depth, "n": n})
@@ -212,7 +230,9 @@ def run_shard(d):
         for kind, det in v:
             acc.violation(f"C16/{klass}/{kind}", {"segs": segs, "d": dd, "sep": sep, "gap": gap, "chain": chain, "klass": klass}, det)
 
-    if d["k"] == "roll":
+    if d["k"] == "reuse":
+        shared.run(acc, reuse_items(), reuse_eval, sample=lambda it: {"reuse_run_step": list(it)})
+    elif d["k"] == "roll":
         n = d["n"]
         shape_sets = list(itertools.product(range(3), repeat=n)) if n <= 4 else [tuple((i + j) % 3 for i in range(n)) for j in range(3)] + [tuple([0] * n), tuple([2] * n)]
         shape_sets += [tuple(3 if i == j else (i % 3) for i in range(n)) for j in range(n)]  # one row uses all 32 columns
@@ -280,6 +300,8 @@ def _t(x):
 
 
 def replay(case):
+    if case.get("reuse"):
+        return shared.replay(reuse_items(), reuse_eval, case["index"])
     segs = []
     for s in case["segs"]:
         if s[0] == "roll":
